@@ -277,3 +277,30 @@ MUTANTS += [
          old="        step_gen = self.step.step_generator_function(x_i, method, n, order)\n        return list(step_gen()), step_gen.step_ratio",
          new="        key = (method, n, order, np.shape(x_i))\n        cache = self.step.__dict__.setdefault('_memo', {})\n        if key not in cache:\n            step_gen = self.step.step_generator_function(x_i, method, n, order)\n            cache[key] = (list(step_gen()), step_gen.step_ratio)\n        return cache[key]"),
 ]
+
+MUTANTS += [
+    dict(id='c01-argmin-first-row', props=['C01', 'C02'], file=LIM,
+         old="            arg_mins[i] = idx[idx.size // 2]\n", new="            arg_mins[i] = idx[0] * 0\n"),
+    dict(id='c01-multicomplex2-imag2', props=['C01', 'C02'], file=FD,
+         old="        z = Bicomplex(x + 1j * h, h)\n        return Bicomplex.__array_wrap__(f(z)).imag12",
+         new="        z = Bicomplex(x + 1j * h, h)\n        return Bicomplex.__array_wrap__(f(z)).imag12 * (1 + h)"),
+    dict(id='c01-central-even-fx-weight', props=['C01', 'C02'], file=FD,
+         old="        return (f(x0i + h) + f(x0i - h)) / 2.0 - f_x0i\n\n    @staticmethod\n    def _central(f, f_x0i",
+         new="        return (f(x0i + h) + f(x0i - h)) / 2.0 - f_x0i * (1 - 1e-9)\n\n    @staticmethod\n    def _central(f, f_x0i"),
+    dict(id='c01-complex-odd-higher-factor', props=['C01', 'C06'], file=FD,
+         old="        return ((3 * _SQRT_J) * (f(x + i_h) - f(x - i_h))).real", new="        return ((3 * _SQRT_J) * (f(x + i_h) - f(x - i_h))).real * (1 + 1e-6)"),
+    dict(id='c01-richardson-order-plus-one', props=['C01', 'C06'], file=CORE,
+         old="        order = self.method_order\n        step = self.fd_rule.richardson_step\n        self.richardson",
+         new="        order = self.method_order + (self.n == 3)\n        step = self.fd_rule.richardson_step\n        self.richardson"),
+    dict(id='c01-n0-returns-shifted', props=['C01', 'C02'], file=CORE,
+         old="        results = [self.fun(x_i, *args, **kwds)]\n", new="        results = [self.fun(x_i * (1 + 1e-15), *args, **kwds)]\n"),
+    dict(id='c01-forward-fx-stale', props=['C01', 'C02'], file=CORE,
+         old="        if self.fd_rule.eval_first_condition or self.full_output:\n            return f(x)\n        return 0.0",
+         new="        if self.fd_rule.eval_first_condition or self.full_output:\n            return f(x * (1 + 1e-10))\n        return 0.0"),
+    dict(id='c01-step-nom-abs-missing', props=['C01', 'C10'], file=SG,
+         old="    return np.log(1.718281828459045 + np.abs(x)).clip(min=1)", new="    return np.log(1.718281828459045 + x).clip(min=1)"),
+    dict(id='c01-dea3-keeps-e1', props=['C01', 'C13'], file=EXT,
+         old="        result = np.where(converged, e_2 * 1.0, e_1 + 1.0 / sss)", new="        result = np.where(converged, e_1 * 1.0, e_1 + 1.0 / sss)"),
+    dict(id='c01-outlier-penalty-dropped', props=['C01', 'C02'], file=LIM,
+         old="        errors += _Limit._add_error_to_outliers(der)\n", new="        errors += 0 * _Limit._add_error_to_outliers(der)\n"),
+]
